@@ -65,6 +65,7 @@ struct sthr {
 	int		joined, detached;
 	int64_t		wait_t0;
 	long		site_count[FS_MAX];
+	long		nsteps;
 	uint64_t	sigmask, sigpend;
 	int		in_sighandler;
 	int		eintr_wake;	/* woken for an injected early EINTR */
@@ -356,6 +357,7 @@ static int64_t ts_ns_clamped(const struct timespec *ts)
 
 static int64_t next_deadline(void);
 int64_t simk_next_deadline(void) { return next_deadline(); }
+long simk_thread_steps(int tid) { return T[tid].nsteps; }
 
 static int64_t next_deadline(void)
 {
@@ -527,6 +529,7 @@ static int passthru;	/* set in a really forked child: one thread, no scheduling 
 static void step(void)
 {
 	simk_stats.steps++;
+	T[me].nsteps++;
 	if (cfg.yield_cost_ns)
 		vnow += cfg.yield_cost_ns;
 	if (simk_stats.steps > cfg.max_steps) {
@@ -1357,6 +1360,12 @@ ssize_t simk_read(int fd, void *b, size_t n)
 		if (f) { errno = f->err; return -1; }
 	} else {
 		site_gcount[FS_READ]++;
+		if (fd >= 0 && fd < NFDL && libfd[fd] && tfd_find(fd) < 0) {
+			/* the library reads one of its own eventfd / pipe / inotify descriptors: an interrupted or
+			 * spuriously empty read is legal and every such reader is written to cope with it */
+			struct simk_fault *f = fault_at(FS_LIBREAD);
+			if (f) { errno = f->err; return -1; }
+		}
 	}
 	r = read(fd, b, shorten(fd, n, FS_READ));
 	if (simk_obs.read_data && r > 0) {
